@@ -293,7 +293,8 @@ def to_xir(prog: Program, **kwargs) -> xir.Program:
                     xir_prog.add_declaration(gate_decl)
 
             params = []
-            for i, a in enumerate(cmd.op.p):
+            # gates without constructor arguments (Fouriergate) keep an internal parameter in ``p``
+            for a in [] if isinstance(cmd.op, ops.zero_args_gates) else cmd.op.p:
                 if sfpar.par_is_symbolic(a):
                     # try to evaluate symbolic parameter
                     try:
